@@ -82,6 +82,9 @@ type Op struct {
 	// TokRef > 0 (post/put/get/delete): the request re-uses the token of operation TokRef-1 (which has
 	// returned, or is still outstanding if it was started asynchronously)
 	TokRef int `json:"tokRef,omitempty"`
+	// PathRef > 0: the request goes to the path of operation PathRef-1 (the per-endpoint request
+	// limit is keyed by the path); the operation is then told apart by a query
+	PathRef int `json:"pathRef,omitempty"`
 }
 
 type Scenario struct {
@@ -326,6 +329,9 @@ func Run(t *testing.T, sc Scenario, track bool) (tr Trace) {
 					}
 				}
 			}
+			if v, ok := q["i"]; ok && rec.Op >= 0 {
+				rec.Op, _ = strconv.Atoi(v)
+			}
 			body, _ := rq.ReadBody()
 			rec.BodyLen = len(body)
 			up, _ := strconv.Atoi(q["u"])
@@ -551,6 +557,10 @@ func Run(t *testing.T, sc Scenario, track bool) (tr Trace) {
 			path := fmt.Sprintf("/t/%d", i)
 			var opts []message.Option
 			addQ := func(s string) { opts = append(opts, message.Option{ID: message.URIQuery, Value: []byte(s)}) }
+			if op.PathRef > 0 && op.PathRef <= i {
+				path = fmt.Sprintf("/t/%d", op.PathRef-1)
+				addQ(fmt.Sprintf("i=%d", i))
+			}
 			addQ(fmt.Sprintf("u=%d", op.Up))
 			addQ(fmt.Sprintf("d=%d", op.Down))
 			if op.Mode != "" && op.Mode != "slow" {
